@@ -420,7 +420,13 @@ impl World {
         let mut cx = Context::from_waker(&waker);
         let d = self.dispatch.as_mut().unwrap();
         let r = catch_unwind(AssertUnwindSafe(|| d.as_mut().poll(&mut cx)));
-        let log = self.tr.take_log();
+        let mut log = self.tr.take_log();
+        if let Err(p) = &r {
+            if p.downcast_ref::<BudgetExceeded>().is_some() {
+                // a poll that spins makes 10 000 calls: the first few say all there is to say
+                log.truncate(40);
+            }
+        }
         let ended = !matches!(r, Ok(Poll::Pending));
         self.detect_timer_ambiguity(&log, ended);
         for c in &log {
